@@ -120,6 +120,26 @@ func init() {
 		}
 		return merkleRun(hashByName(a[0]), leaves)
 	}
+	// merkle.generrs hash n seed len e1,e2,…: generated leaves, the listed positions fail to marshal
+	execs["merkle.generrs"] = func(a []string) string {
+		n, _ := strconv.Atoi(a[1])
+		seed, _ := strconv.Atoi(a[2])
+		ln, _ := strconv.Atoi(a[3])
+		bad := map[int]bool{}
+		for _, t := range strings.Split(a[4], ",") {
+			k, _ := strconv.Atoi(t)
+			bad[k] = true
+		}
+		leaves := make([]*leaf, n)
+		for i := range leaves {
+			if bad[i] {
+				leaves[i] = &leaf{err: leafErr(i)}
+			} else {
+				leaves[i] = &leaf{b: genLeaf(seed, i, ln+i%3)}
+			}
+		}
+		return merkleRun(hashByName(a[0]), leaves)
+	}
 	execs["merkle.empty"] = func(a []string) string {
 		h := sharedHasher(hashByName(a[0]))
 		r, err := h.Hash(nil)
@@ -131,6 +151,22 @@ func init() {
 		return hx(h.EmptyRoot())
 	}
 	gens["C15"] = genC15
+}
+
+func largestPow2Below(n int) int {
+	k := 1
+	for k*2 < n {
+		k *= 2
+	}
+	return k
+}
+
+func joinInts(v []int) string {
+	p := make([]string, len(v))
+	for i, x := range v {
+		p[i] = itoa(x)
+	}
+	return strings.Join(p, ",")
 }
 
 func genC15(g *G) {
@@ -163,6 +199,19 @@ func genC15(g *G) {
 	for n := 1; n <= 33; n++ {
 		for at := 0; at < n; at++ {
 			g.emit("merkle.gen", "sha256", itoa(n), "5", "3", itoa(at))
+		}
+	}
+	// several failing leaves far apart in larger trees (both sides of every kind of split point): the FIRST one is reported
+	sizes := []int{34, 64, 65, 257, 1024, 1025, 1500, 2049}
+	if g.thorough {
+		sizes = append(sizes, 4096, 4097, 5000, 8193, 16385)
+	}
+	for _, n := range sizes {
+		for rep := 0; rep < 3; rep++ {
+			k := largestPow2Below(n)
+			cands := [][]int{{1, n - 1}, {k - 1, k}, {0, k, n - 1}, {g.r.intn(k), k + g.r.intn(n-k)}, {k + g.r.intn(n-k), g.r.intn(k)}, {n - 1, n - 2}}
+			c := cands[(rep*2+n)%len(cands)]
+			g.emit("merkle.generrs", hashes[n%2], itoa(n), itoa(g.r.intn(1000)), itoa(g.r.intn(8)), itoa(c[0])+","+joinInts(c[1:]))
 		}
 	}
 	rounds := 200
